@@ -1,5 +1,6 @@
 import TextxVerif.Proofs.Cli
 import TextxVerif.Proofs.CliSel
+import TextxVerif.Proofs.CliClick
 /-!
 # C30 — the textx CLI reports outcomes and passes generator arguments faithfully
 
@@ -182,6 +183,33 @@ theorem C30_args_all_lines (args : List Str) :
   · have := C30_args (readItems args) hwf
     rw [hr] at this
     exact this
+
+/-- **From the typed command line to the generator, through click.**  A typed line is a list of
+custom items (model files, `--name [value]`) interleaved at arbitrary places with click's own
+options in canonical spelling (`WFc`).  click hands the command body exactly the rendering of
+the custom part, and — when that custom part, *with click's options taken out*, is well-formed —
+the argument loop returns its files and its dictionary.  The well-formedness that matters is
+that of the line after click's removal: see `C30_click_adjacent_false`. -/
+theorem C30_args_click (line : List CItem) (hc : WFc line) :
+    clickStrip (renderC line) = render (itemsOf line) ∧
+    (WF (itemsOf line) →
+      parseArgs (clickStrip (renderC line)) = (expFiles (itemsOf line), expDict (itemsOf line) [])) := by
+  have h := clickStrip_renderC line hc
+  exact ⟨h, fun hwf => by rw [h]; exact C30_args _ hwf⟩
+
+/-- **Open finding C30-KF1 as a statement about the code.**  A bare flag separated from a
+following model file only by a click-owned option: on the typed line the flag is not followed by
+a file, but click removes its option first, the flag and the file become neighbours, and the
+loop reads the file as the flag's value — no model file is left and the generator would get
+`my_flag="m.x"` instead of `my_flag=True` and the model `m.x`. -/
+theorem C30_click_adjacent_false :
+    ∃ line : List CItem, WFc line ∧
+      renderC line = ["--my-flag".toList, "--overwrite".toList, "m.x".toList] ∧
+      ¬ WF (itemsOf line) ∧
+      parseArgs (clickStrip (renderC line)) = ([], [("my_flag".toList, .str "m.x".toList)]) ∧
+      (expFiles (itemsOf line), expDict (itemsOf line) []) = (["m.x".toList], [("my_flag".toList, .flag)]) :=
+  ⟨[.item (.arg "my-flag".toList none), .flagOpt "--overwrite".toList, .item (.file "m.x".toList)],
+    by simp only [WFc, Plain]; decide, by decide, by simp [itemsOf, WF], by decide, by decide⟩
 
 /-- **The reported validation error is true.**  `missing n`: `n` is a mandatory declared
 parameter that was not given.  `undeclared k`: `k` was given, is not declared, and no mandatory
@@ -470,6 +498,15 @@ example : runCheck exEnv ["a.c30a".toList, "b.c30a".toList, "a.c30a".toList] =
 example : render [.arg "my-flag".toList (some "a.c30a".toList)] = ["--my-flag".toList, "a.c30a".toList] := by decide
 example : WF [.arg "my-flag".toList (some "a.c30a".toList)] := by simp [WF, isSwitch]
 example : ¬ WF [.arg "my-flag".toList none, .file "a.c30a".toList] := by simp [WF]
+
+-- a typed line with click's options at arbitrary places (hypotheses `WFc`, `WF (itemsOf …)` of `C30_args_click`)
+def exLine : List CItem :=
+  [.valOpt "--target".toList "T".toList, .item (.file "a.c30a".toList), .flagOpt "--overwrite".toList,
+   .item (.arg "my-flag".toList none), .valOpt "-o".toList "out".toList, .item (.arg "x-y".toList (some "1".toList))]
+
+example : WFc exLine := by simp only [exLine, WFc, Plain]; decide
+example : WF (itemsOf exLine) := by simp [exLine, itemsOf, WF, isSwitch]
+example : clickStrip (renderC exLine) = ["a.c30a".toList, "--my-flag".toList, "--x-y".toList, "1".toList] := by decide
 
 /-- two generators for the target: the file's own language declares `must`, the `any` fallback accepts all -/
 def exEnv2 : Env :=
